@@ -1026,7 +1026,7 @@ pub fn run(ctx: &Ctx) -> Result<Evidence, String> {
     acc.sample(json!({"pair": pairs.describe(0), "fresh_process_result": baseline.get(&0)}));
     acc.sample(json!({"pair": pairs.describe(1), "fresh_process_result": baseline.get(&1)}));
 
-    let mut ev = Evidence::new("cases: a set of (query, document) pairs built to collide under every plausible cache key (same pattern under match and search, same text on different / equal-valued documents, queries differing only in blanks, quotes or a trailing selector, interleaved failing parses, deep documents) plus random pairs. (a) the four entry points compared position by position incl. errors, document snapshot compared; (b) random histories with repetition - re-allocated documents, a reused parsed query, documents mutated through reference_mut in between - every occurrence compared with the result a fresh process computes for that pair; (c) 2-16 threads on a barrier sharing one parsed query and/or one document with seeded yields injected in the H1 hook, every result compared with the fresh-process result; (e) compile-time Send+Sync probe. Further phases: rejection storms (thousands of queries rejected by the grammar and by the hand-written checks at every nesting, valid probe queries re-evaluated in between, per thread); histories of in-place edits and of short-lived documents of one shape (same buffers, other contents), every result judged by the reference evaluator on the current contents. Non-trivial = distinct pairs with a non-empty result + distinct histories + distinct interleavings (hash of the tick-ordered call/return sequence).");
+    let mut ev = Evidence::new("cases: a set of (query, document) pairs built to collide under every plausible cache key (same pattern under match and search, same text on different / equal-valued documents, queries differing only in blanks, quotes or a trailing selector, interleaved failing parses, deep documents) plus random pairs. (a) the four entry points compared position by position incl. errors, document snapshot compared; (b) random histories with repetition - re-allocated documents, a reused parsed query, documents mutated through reference_mut in between - every occurrence compared with the result a fresh process computes for that pair; (c) 2-16 threads on a barrier sharing one parsed query and/or one document with seeded yields injected in the H1 hook, every result compared with the fresh-process result; (e) compile-time Send+Sync probe. Further phases: deep recursions on all threads at once; one parsed query shared by threads that own a document each (also slicing big arrays); wrap-around distances (2^k - 1 evaluations between two uses of a query); extreme inputs on fresh threads with probe queries before and after (very deep / wide documents at round-number depths, huge arrays, 20000-segment queries, deeply parenthesised filters); generations of 40 live threads on names spelled with optional escapes; rejection storms (thousands of queries rejected by the grammar and by the hand-written checks at every nesting, valid probe queries re-evaluated in between, per thread); histories of in-place edits and of short-lived documents of one shape (same buffers, other contents), every result judged by the reference evaluator on the current contents. Non-trivial = distinct pairs with a non-empty result + distinct histories + distinct interleavings (hash of the tick-ordered call/return sequence).");
     ev.set("exhaustive", json!(false));
     ev.set("pairs", json!(n));
     ev.set("histories", json!(n_hist));
